@@ -43,26 +43,34 @@ Proof.
 Qed.
 Print Assumptions C10_cw_placements_named.
 (* "returns normally": schedule() returns a decision (no exception, no divergence) when every batch size is >= 1, every
-   offered request has a known profile with at least one strategy, and no strategy asks for the same resource NAME twice
-   (res_ok).  The last hypothesis is needed: without it the statement is refuted (finding F-cw1). *)
-Theorem C10_cw_returns : forall wd ls inv st, world_wf wd -> bs_pos wd -> res_ok wd -> Inv_st wd st -> offered_known wd inv ->
-  exists st' d, cw_schedule wd ls inv st = Ok (st', d).
+   offered request has a known profile with at least one strategy, and the quantities of the strategies and of the
+   workers' resource vectors are not negative.  No hypothesis on how the requests of a strategy compete for units is
+   needed since /repo 402c33a: what Resources.__gt__ accepts, allocate_multiple serves (play_allocate). *)
+Theorem C10_cw_returns : forall wd ls inv st, world_wf wd -> bs_pos wd -> world_nonneg wd -> pools_nonneg (inv_pools inv) ->
+  Inv_st wd st -> offered_known wd inv -> exists st' d, cw_schedule wd ls inv st = Ok (st', d).
 Proof. exact cw_schedule_returns. Qed.
 Print Assumptions C10_cw_returns.
-Theorem C10_cw_returns_run : forall wd ls started invs, world_wf wd -> bs_pos wd -> res_ok wd -> NoDup started -> Forall (offered_known wd) invs ->
+Theorem C10_cw_returns_run : forall wd ls started invs, world_wf wd -> bs_pos wd -> world_nonneg wd -> NoDup started ->
+  Forall (fun inv => offered_known wd inv /\ pools_nonneg (inv_pools inv)) invs ->
   Forall (fun r => exists d, r = Ok d) (cw_run wd ls invs (cw_start wd started)) /\
   length (cw_run wd ls invs (cw_start wd started)) = length invs.
 Proof. intros wd ls started invs Hw Hp Hr Hd Ho. apply run_returns; try assumption. apply cw_start_inv; assumption. Qed.
 Print Assumptions C10_cw_returns_run.
+(* the fit test and the allocation agree: a strategy that fits is placed without error *)
+Theorem C10_cw_fit_then_place : forall w s, fits w s = true -> 1 <= s_bs s -> res_nonneg (w_res w) -> res_nonneg (s_res s) ->
+  exists w1, w_place w s = Ok w1 /\ res_nonneg (w_res w1).
+Proof. exact w_place_ok. Qed.
+Print Assumptions C10_cw_fit_then_place.
 (* termination alone needs no hypothesis on resources *)
 Theorem C10_cw_terminates : forall wd ls inv st, world_wf wd -> bs_pos wd -> Inv_st wd st -> cw_schedule wd ls inv st <> Err 99.
 Proof. exact cw_schedule_terminates. Qed.
 Print Assumptions C10_cw_terminates.
-(* refuted without res_ok: the witness satisfies every other hypothesis (reproduced on the real scheduler by the check) *)
-Theorem C10_cw_returns_refuted :
-  world_wf rf_wd /\ bs_pos rf_wd /\ Inv_st rf_wd (cw_start rf_wd [1]) /\ cw_schedule rf_wd false rf_inv (cw_start rf_wd [1]) = Err 2.
-Proof. exact returns_normally_refuted. Qed.
-Print Assumptions C10_cw_returns_refuted.
+(* regression case (former finding F-cw1): requests competing for one unit are refused by the fit test; schedule() returns *)
+Theorem C10_cw_competing_requests_return :
+  exists st', cw_schedule rf_wd false rf_inv (cw_start rf_wd [1]) = Ok (st', mkD [] [] []) /\
+              obs_state st' = L [L [I 1; L [L [I 1; L [I 1]]]; L [L [I 1; I 1]]]].
+Proof. exact competing_requests_return. Qed.
+Print Assumptions C10_cw_competing_requests_return.
 (* the monitor applied to the implementation's decisions, clause by clause *)
 Theorem C10_cw_monitor : forall wd o, mon_invocation wd o = true <->
   oi_cancelled o = map t_id (filter (hopeless wd (oi_now o)) (oi_offered o)) /\
@@ -72,6 +80,6 @@ Theorem C10_cw_monitor : forall wd o, mon_invocation wd o = true <->
   (forall b t, In b (oi_batches o) -> In t (ob_tasks b) -> hopeless wd (oi_now o) t = false).
 Proof. exact mon_invocation_iff. Qed.
 Print Assumptions C10_cw_monitor.
-Theorem C10_cw_example : world_wf ex_wd /\ bs_pos ex_wd /\ res_ok ex_wd /\ map t_id (run_placed (cw_run ex_wd false ex_invs (cw_start ex_wd [1]))) = [1; 2; 6; 4].
-Proof. exact (conj ex_world_wf (conj ex_bs_pos (conj ex_res_ok ex_placed))). Qed.
+Theorem C10_cw_example : world_wf ex_wd /\ bs_pos ex_wd /\ world_nonneg ex_wd /\ map t_id (run_placed (cw_run ex_wd false ex_invs (cw_start ex_wd [1]))) = [1; 2; 6; 4].
+Proof. exact (conj ex_world_wf (conj ex_bs_pos (conj (proj1 ex_nonneg) ex_placed))). Qed.
 Print Assumptions C10_cw_example.
